@@ -128,7 +128,9 @@ class SQLDumper(DumperBase):
             storage = Storage(self.engine, prefix=table_name)
             if mode == 'rewrite' and '' in storage.buckets:
                 storage.delete('')
-            schema_descriptor = resource.res.descriptor['schema']
+            # the table gets the fields that came in (not the flag fields this step adds to the rows)
+            schema_descriptor = getattr(self, 'incoming_resources', {}).get(
+                resource_name, resource.res.descriptor)['schema']
             schema = self.normalize_schema_for_engine(self.engine.dialect.name,
                                                       schema_descriptor)
             if '' not in storage.buckets:
